@@ -657,3 +657,58 @@ class PairwiseForSubvar(Contract):
 
 
 REGISTRY.append(PairwiseForSubvar())
+
+
+class SliceScaleMeanMargins(Contract):
+    """C14 / C05: the scale-mean margin of a slice is the weighted mean of the opposing...
+    precisely: columns_scale_mean_margin = sum_i v_i m_i / sum_i m_i over the base rows i that
+    carry a numeric value v_i, m_i the row's weighted margin (first column of the per-cell row
+    bases); rows_scale_mean_margin is the mirror image.  Computed from the base vectors in
+    payload order: no display order, hidden or inserted vector enters (the slice is given no
+    order vectors at all); None when no element has a numeric value."""
+
+    name = CP + ":_Slice.columns/rows_scale_mean_margin"
+    props = ("C14", "C05")
+
+    def configs(self):
+        return [dict(o="columns"), dict(o="rows")]
+
+    def size_space(self, cfg):
+        return {"R": [1, 2, 3], "C": [1, 2, 3]}
+
+    def run(self, B, cfg):
+        R, C = B.size("R", lo=1), B.size("C", lo=1)
+        bases = B.tensor("bases", (R, C), nonneg=True)
+        cols_o = cfg["o"] == "columns"
+        n = R if cols_o else C
+        values = B.tensor("numeric_values", (n,), maybe_nan=True)
+        vseq = B.seq(n, lambda k: B.rd(values, k), "numeric_values")
+        dim = B.stub("dimension", numeric_values=vseq)
+        other = B.stub("other_dimension")
+        mname = "row_weighted_bases" if cols_o else "column_weighted_bases"
+        som = B.stub("measures", **{mname: blocks_stub(B, mname, [[bases, None], [None, None]])})
+        sl = new_slice(B)
+        B.cut(sl, "_measures", som)
+        B.cut(sl, "_dimensions", (dim, other) if cols_o else (other, dim))
+        got = getattr(sl, cfg["o"] + "_scale_mean_margin")
+        rd = B.rd
+
+        def m(k):
+            return rd(bases, k, 0) if cols_o else rd(bases, 0, k)
+
+        def hv(k):
+            return B.bnot(B.isnan(rd(values, k)))
+
+        from .stripe_c import _all_nan
+
+        no_values = _all_nan(B, values, n)
+        if got is None:
+            B.check("None-only-without-numeric-values", no_values)
+            return
+        B.check("defined-only-with-numeric-values", B.bnot(no_values))
+        num = B.Sum(n, lambda k: B.ite(hv(k), rd(values, k) * m(k), 0.0))
+        den = B.Sum(n, lambda k: B.ite(hv(k), m(k), 0.0))
+        B.eq_scalar("margin", got, num / den)
+
+
+REGISTRY.append(SliceScaleMeanMargins())
